@@ -122,7 +122,13 @@ def base_globals():
   jax = Module('jax', {'jit': Handler(c_jit, 'jax.jit'),
                        'tree_util': Module('jax.tree_util', {'tree_map': Handler(c_tree_map, 'tree_map')}),
                        'disable_jit': Handler(lambda c: CtxMgr(), 'jax.disable_jit')})
-  return {'jax': jax, 'jnp': jnp}
+  def c_partial(ctx, f, *a, **k):
+    def call(c, *a2, **k2):
+      kk = dict(k)
+      kk.update(k2)
+      return c.engine.call_value(c, f, list(a) + list(a2), kk)
+    return Handler(call, 'functools.partial')
+  return {'jax': jax, 'jnp': jnp, 'functools': Module('functools', {'partial': Handler(c_partial, 'functools.partial')})}
 
 
 class ClientsV(Val):
